@@ -211,6 +211,40 @@ func runC15(r *Run) {
 			okFail = ri.Class == core.RetFail && isC && c0.Value.String() == "0"
 		}
 	}
+	if !okFail {
+		// edge form: behind the failure edge of Put lie only returns of (0, non-nil error)
+		retInfo := map[*ssa.BasicBlock]core.ReturnInfo{}
+		for _, ri := range ff.Returns() {
+			retInfo[ri.Ret.Block()] = ri
+		}
+		for _, b := range pto.Blocks {
+			for _, s2 := range b.Succs {
+				isFail := false
+				for _, fc := range ff.EdgeFacts(b, s2) {
+					if fc.Kind == "fail" && fc.A != nil && core.MatchTerm("OperationStore.Put(...)", fc.A, core.Bind{}) {
+						isFail = true
+					}
+				}
+				if !isFail {
+					continue
+				}
+				good, nRet := true, 0
+				visit := func(x *ssa.BasicBlock) bool {
+					if ri, isRet := retInfo[x]; isRet {
+						nRet++
+						c0, isC := core.RetOp(ri.Ret, 0).(*ssa.Const)
+						if ri.Class != core.RetFail || !isC || c0.Value == nil || c0.Value.String() != "0" {
+							good = false
+						}
+					}
+					return false
+				}
+				visit(s2)
+				ff.WalkFeasible([]*ssa.BasicBlock{b, s2}, nil, visit)
+				okFail = good && nRet > 0
+			}
+		}
+	}
 	r.R.Check(okFail, P+".put.failure", "E8 exit class: a failed Put returns (0, non-nil error)", core.FuncName(pto), r.where(pto), "a transaction that cannot be stored must contribute nothing", "(0, err)", "the path on which Put fails does not return (0, error)")
 	okOrder := false
 	for _, c := range r.callsIn(pto, "unpublishedOperationStore.DeleteAll") {
@@ -415,6 +449,43 @@ func (r *Run) checkCompensate(P string) {
 		if ri.Facts.Has((&core.Fact{Kind: "fail", A: putT}).Key()) && ri.Class == core.RetFail {
 			called := ri.Facts.Has((&core.Fact{Kind: "called", A: addT}).Key())
 			okEarly = !called
+		}
+	}
+	if !okEarly {
+		// edge form (the failure may be merged with others before it is returned): behind the failure edge of the
+		// store add lie only error returns, and the queue add is not among what can still be executed
+		retClass := map[*ssa.BasicBlock]core.RetClass{}
+		for _, ri := range ff.Returns() {
+			retClass[ri.Ret.Block()] = ri.Class
+		}
+		for _, b := range po.Blocks {
+			for _, s2 := range b.Succs {
+				isFail := false
+				for _, fc := range ff.EdgeFacts(b, s2) {
+					if fc.Kind == "fail" && fc.A.String() == putT.String() {
+						isFail = true
+					}
+				}
+				if !isFail {
+					continue
+				}
+				good, nRet := true, 0
+				visit := func(x *ssa.BasicBlock) bool {
+					if x == add.Block() {
+						good = false
+					}
+					if cl, isRet := retClass[x]; isRet {
+						nRet++
+						if cl != core.RetFail {
+							good = false
+						}
+					}
+					return false
+				}
+				visit(s2)
+				ff.WalkFeasible([]*ssa.BasicBlock{b, s2}, nil, visit)
+				okEarly = good && nRet > 0
+			}
 		}
 	}
 	r.R.Check(okEarly, P+".compensate.early", "E8: a failed unpublished-store add returns an error without the queue add having been executed", core.FuncName(po), r.where(po), why, "returns before the queue add", "queue add may already have happened")
